@@ -92,6 +92,10 @@ def e2e_canon(rec):
     """the e2e driver cannot know rc / fired / timer counts: compare what it can see"""
     cr = canon_record(rec)
     if cr[0] == "out":
+        # several timers due in one `elapse`: libevent's heap is keyed by a coarse clock, equal
+        # expiries pop in heap order; the model fires in table order — compare as multisets
+        if any(x.startswith("fired=") for x in cr[2]):
+            return ("out", tuple(sorted(cr[1])))
         return ("out", cr[1])
     if cr[0] == "rc":
         return ("out", cr[2])
